@@ -79,6 +79,8 @@ func EndBlocker(ctx sdk.Context, k keeper.Keeper) {
 				if !requestContext.SuperMode {
 					if err := k.DeductServiceFees(ctx, requestContext.Consumer, totalPrices); err != nil {
 						k.OnRequestContextPaused(ctx, requestContext, requestContextID, "insufficient balances")
+						// the context is now paused in the store: do not issue the unpaid batch
+						requestContext.State = types.PAUSED
 					}
 				}
 
